@@ -68,7 +68,7 @@ template <unsigned N, typename BT, unsigned... RBs> static void regN(bool sm, st
 template <unsigned N, typename BT> static void regAll(bool sm) { regN<N, BT>(sm, std::make_integer_sequence<unsigned, N + 1>{}); }
 
 int main(int argc, char** argv) {
-	for (int i = 1; i + 1 < argc; ++i) if (std::string(argv[i]) == "--group") g_group = argv[i + 1];
+	g_group = parse_group(argc, argv, g_group);
 #ifndef NO_SMALL
 	regAll<4, uint8_t>(true); regAll<5, uint8_t>(true); regAll<6, uint8_t>(true); regAll<7, uint8_t>(true); regAll<8, uint8_t>(true);
 #endif
